@@ -36,6 +36,11 @@ def spec_from_seed(run_seed, tier):
         return {"kind": "nongenerable", "prop": "C13", "text": text, "tags": ["non_generable", "mass_known"], "system_molweight": sysw,
                 "sched": {"seed": rnd.randrange(1 << 48), "choice_policy": rnd.choice(["faithful", "first", "last", "rare"]), "draw_policy": "natural",
                           "script": None, "budget": 30000}, "n_generators": 1, "faults": [], "pulls": rnd.choice([1, 3, 10])}
+    if rnd.random() < 0.05:
+        text, total = archetypes.gen_open_ended_system(rnd)
+        return {"kind": "open_ended", "prop": "C13", "text": text, "tags": ["open_ended_component"], "declared_mass": total,
+                "sched": {"seed": rnd.randrange(1 << 48), "choice_policy": rnd.choice(["faithful", "first", "last", "rare", "uniform_support"]),
+                          "draw_policy": rnd.choice(["natural", "low", "mid"]), "script": None, "budget": 30000}, "n_generators": 1, "faults": []}
     if rnd.random() < 0.06:
         text = rnd.choice(archetypes.NON_GENERABLE_SYSTEMS)
         return {"kind": "sys", "prop": "C13", "text": text, "tags": ["non_generable"], "system_molweight": None, "ops_seed": rnd.randrange(1 << 30),
@@ -137,9 +142,79 @@ def _exec_nongenerable(spec):
             "sample": {"system": spec["text"], "expect": "refuses"}, "digest": world.digest(), "trace": list(sched.trace)}
 
 
+def _exec_open_ended(spec):
+    """A system with a known mass in which one component can never be completed (open right terminal without suffix, a lone
+    token with a descriptor).  Whatever the scheduler picks: every yielded molecule is complete, and iteration ends either by
+    refusing (an exception) or, silently, only once the yielded mass has reached the system mass.  No AST is involved."""
+    from .. import boot
+    from ..seams import DrawDiverges, World
+    from ..simrng import BudgetExceeded, Scheduler, SimAbort, SimRng
+
+    g = boot.load()
+    sched = Scheduler(**spec["sched"])
+    world = World(sched, embed="stub")
+    world.draw_limit = 10 ** 7
+    viols = []
+    fget = g.System.generator.fget
+    old = fget.__defaults__
+    stats = {"runs": 1, "open_ended_runs": 1, "tag:open_ended_component": 1, "yields": 0}
+    total = 0.0
+    feats = ["open_ended_component"]
+    M = float(spec["declared_mass"])
+    with world:
+        fget.__defaults__ = (SimRng(sched),)
+        try:
+            system = g.System(spec["text"])
+            if not system.generable:
+                return {"harness_error": f"workload system {spec['text']!r} is reported not generable", "violations": []}
+            if abs(float(system.system_mass) - M) > 1e-9 * M:
+                viols.append({"property": "C13", "invariant": "system_mass_differs_from_specifiers",
+                              "msg": f"System.system_mass is {system.system_mass!r}, the specifiers add up to {M!r}", "features": feats})
+            M = float(system.system_mass)
+            gen = system.generator
+            try:
+                for _ in range(400):
+                    world.attach_count = 0
+                    member = next(gen)
+                    if total >= M:
+                        viols.append({"property": "C13", "invariant": "yield_after_system_mass",
+                                      "msg": f"a molecule was yielded although the accumulated mass {total} had reached the system mass {M}", "features": feats})
+                    stats["yields"] += 1
+                    total += float(member.weight)
+                    world.event({"k": "op", "op": "yield", "w": float(member.weight), "cum": total})
+                    if not member.fully_generated:
+                        viols.append({"property": "C13", "invariant": "member_not_fully_generated",
+                                      "msg": f"iterating {spec['text']!r} yielded a molecule with open descriptors: {member.smiles}", "features": feats})
+                        break
+            except StopIteration:
+                stats["open_ended_completed"] = 1
+                if total < M:
+                    viols.append({"property": "C13", "invariant": "stopped_before_system_mass",
+                                  "msg": f"iteration of {spec['text']!r} ended silently at accumulated mass {total} < system mass {M} after {stats['yields']} molecules",
+                                  "features": feats})
+            except (BudgetExceeded, DrawDiverges) as exc:
+                fam = [e["text"].split("(")[0].strip("|") for e in world.log if e["k"] == "draw_fail"]
+                viols.append({"property": "C13", "invariant": "member_generation_does_not_terminate", "msg": f"next() did not return: {exc!r}",
+                              "features": feats + ["exc=" + type(exc).__name__] + (["draw_fail", "family=" + fam[-1]] if fam else [])})
+            except SimAbort:
+                raise
+            except Exception:
+                stats["open_ended_refused"] = 1  # refusing is fine: nothing incomplete was handed out
+        finally:
+            fget.__defaults__ = old
+    for v in viols:
+        v["input"] = spec["text"]
+    sig = hashlib.sha1(json.dumps([spec["text"], list(sched.trace)]).encode()).hexdigest()
+    return {"violations": viols, "stats": stats, "sig": sig, "nontrivial": False,
+            "sample": {"system": spec["text"], "expect": "complete members only; refusal or the full system mass", "yielded_mass": total},
+            "digest": world.digest(), "trace": list(sched.trace)}
+
+
 def execute(spec):
     if spec.get("kind") == "nongenerable":
         return _exec_nongenerable(spec)
+    if spec.get("kind") == "open_ended":
+        return _exec_open_ended(spec)
     if spec.get("enumerate"):
         return _enumerate_crash_points(spec, spec["enumerate"])
     r = sysrun.run_system(spec["text"], spec["ops_seed"], dict(spec["sched"]), n_generators=spec["n_generators"], faults=spec["faults"],
